@@ -1188,10 +1188,17 @@ class AsyncBackgroundBatcher(Generic[A_contra, R_co]):
                 )
                 async for key, result in self.func(args):
                     fut = futs.pop(key)
-                    if isinstance(result, Exception):
-                        fut.set_exception(result)
-                    else:
-                        fut.set_result(result)
+                    try:
+                        if isinstance(result, Exception):
+                            fut.set_exception(result)
+                        else:
+                            fut.set_result(result)
+                    except Exception:
+                        # Outcome couldn't be delivered (e.g. StopIteration
+                        # can't be set on a future): fail this future with
+                        # the rest of the batch instead of leaving it pending
+                        futs[key] = fut
+                        raise
         except Exception as e:
             logger.debug("Exception while processing batch", exc_info=True)
             for fut in futs.values():
